@@ -16,9 +16,10 @@ TRUSTED = [
     "parser / scanner (cue/parser, cue/scanner) are NOT modelled: their totality, position invariants and agreement with cue/literal are direct exploration on the implementation (evidence key `exploration`), not theorems",
 ]
 
-KNOWN_AUTOHASH = ("C09-autohash-leading-quotes: literal.Form.WithOptionalHashes().Quote(s) is not unquotable when s starts with two quote "
-                  "characters not followed by '#' (witness String.WithOptionalHashes().Quote(`\"\"x`) == `#\"\"\"x\"#`: "
-                  "ParseQuotes reads a multi-line opening; Coq: C09_unquote_quote_autohash_bad)")
+KNOWN_HASHLIT = ("C09-hash-literal-two-quotes-scanner: a single-line #-delimited literal whose content starts with two quote "
+                 "characters followed by '#', e.g. ##\"\"\"#\"## (content \"\"#), is accepted by literal.Unquote but read as a "
+                 "multi-line opener by the scanner (exploration class hash-string-content-starts-with-two-quotes; Form.Quote no "
+                 "longer produces such literals since fix autohash)")
 U32_WHAT = ("literal.Unquote panics or accepts a truncated string on a \\U escape >= 2^31: the behaviour of an int32 "
             "accumulator (regression of fix unquote-U; former finding C09-unquote-U-int32); the model proves that Unquote never "
             "panics (C09_unquote_impl_no_panic) and rejects every \\U value > 0x10FFFF; the literal is the failing input")
@@ -222,7 +223,7 @@ def run(ctx):
             ip = i.split(" ")
             iq, ir = (ip[0], ip[1]) if len(ip) == 2 else ("", ip[0])
             expected = "ok:" + hexs(s if form[0] == "b" else go_sanitize(s))
-            bad_class = form.split(":")[3] == "1" and lead2(form, s) and ir == "err:opening-newline" and mi == ir
+            bad_class = False   # fix autohash: no (form, text) class is exempt from the round trip any more
             if new:
                 dist["forms"][form[:9]] = dist["forms"].get(form[:9], 0) + 1
                 dist["len_hist"][lhist(len(s))] = dist["len_hist"].get(lhist(len(s)), 0) + 1
@@ -249,7 +250,8 @@ def run(ctx):
                 mism += 1
                 report({"kind": "round-trip-fails", "case": c, "impl": i, "model": m, "expected": expected,
                         "what": "literal.Unquote(form.Quote(s)) differs from s (bytes forms) / sanitize(s) (string forms); "
-                                "the Coq model proves the round trip for the unchanged code (C09_unquote_quote_when)"})
+                                "the Coq model proves the round trip for every public Form and every byte sequence "
+                                "(C09_unquote_quote_all)"})
             elif iq != mq or ir != mi:
                 mism += 1
                 report({"kind": "impl-differs-from-proved-model", "case": c, "impl": i, "model": mq + " " + mi,
@@ -323,8 +325,6 @@ def run(ctx):
             raise vlib.CheckFailure("vm_compute and the extracted model disagree: " + xc["out"])
 
     lap("xcheck")
-    if known_auto:
-        ctx.known_finding(KNOWN_AUTOHASH)
 
     # ---- exploration: scanner / literal / parser agreement, parser totality ----
     exploration = {}
@@ -356,7 +356,7 @@ def run(ctx):
                 ctx.violation(viol_payload)
         for cls, info in sorted(ex.get("known_candidates", {}).items()):
             if cls == "hash-string-content-starts-with-two-quotes":
-                ctx.known_finding(KNOWN_AUTOHASH)
+                ctx.known_finding(KNOWN_HASHLIT)
             else:
                 ctx.known_finding("exploration class %s: %s (witness hex %s)" % (cls, info.get("what", "")[:300], info.get("witness_hex", "")))
         tw = ex.get("threeway", {})
@@ -410,7 +410,7 @@ def run(ctx):
         "corpus_cases": corpus_n,
         "input_distribution": dist,
         "cross_validation": {"impl_unquote_of_model_quote": xval, "quotes_compared_bytewise": kinds.get("Q", 0)},
-        "known_class_counts": {"autohash-leading-quotes": known_auto, "U-escape-int32 (regression layer, must be 0)": 0},
+        "known_class_counts": {"autohash-leading-quotes (fixed, must be 0)": known_auto, "U-escape-int32 (regression layer, must be 0)": 0},
         "sanitize_selftest_cases": sanitize_selftest,
         "vm_compute_crosscheck": xc,
         "mismatches": mism,
@@ -428,8 +428,8 @@ MANIFEST = {
             "byte sequence, every Form the exported API can build (String/Bytes, single line, multi-line with n tabs, optional "
             "multi-line, optional hashes, ASCII-only, graphic-only), every hash count and ANY Unicode printability tables: "
             "Unquote(Quote(f, s)) = s for bytes forms and for valid UTF-8 in string forms, and exactly sanitize(s) (each "
-            "undecodable byte becomes U+FFFD) otherwise -- except on one exactly characterised class where the tree under test "
-            "fails (WithOptionalHashes on text starting with two quote characters; proved to fail, reported as known finding); "
+            "undecodable byte becomes U+FFFD) otherwise, without exception (WithOptionalHashes falls back to regular quoting for "
+            "text starting with two quote characters); "
             "requiredHashCount / singleLineHashCount are sufficient (no accidental closing delimiter or escape introducer); the "
             "modelled Unquote never runs out of fuel and never panics on ANY input (\\U escapes accumulate in a uint32 and every "
             "value > 0x10FFFF is a syntax error; an int32 accumulator provably panics and is kept as regression layer, so that "
